@@ -12,6 +12,7 @@ type GenOpts struct {
 	Family           string // special scenario family ("" = general)
 	NoSiblingContext bool   // no non-target elements between records (they are legitimately retained)
 	OwnDataOnly      bool   // the schema addresses only the target record's own data
+	Probe            bool   // schemas call the harness custom function verif_probe (needs run.ProbeExtension)
 }
 
 // Generator produces a world from the tape.
